@@ -196,7 +196,18 @@ F1L ==
     /\ dev = Cfg([inside_in |-> a], NoFn, {B("inside_in", "inside", "in")}, {}, {"inside"})
     /\ tgt = Cfg([inside_in |-> b], NoFn, {B("inside_in", "inside", "in")}, {}, {})
 
-Init == CASE Fam = "F2S" -> F2S [] Fam = "M2L" -> M2L [] Fam = "F1L" -> F1L [] Fam = "M1" -> M1 [] Fam = "F9" -> F9 [] Fam = "F1" -> F1 [] Fam = "F2" -> F2 [] Fam = "F3" -> F3 [] Fam = "F4" -> F4 [] Fam = "F7" -> F7
+(* S1: spellings.  One line (plus a common tail) per side over services that the device prints by name  *)
+(* and Netspoc by number (protocols, ICMP types, port ranges, ntp); neighbouring services differ in one *)
+(* number only                                                                                          *)
+SvcS == {"esp", "ah", "gre", "icmp8", "icmp0", "icmp3-1", "tcp2021", "tcp2022", "tcpgt", "tcplt", "udp123", "udp124", "tcp80", "udp53"}
+PoolS1 == {Ace("permit", v, T("host", "h1"), T("any", "")) : v \in SvcS}
+S1 ==
+  \E a, b \in {<<>>} \cup {<<x>> : x \in PoolS1}, tail \in {<<>>, <<Ace("deny", "ip", T("any", ""), T("any", ""))>>} :
+    /\ a \o tail # <<>> /\ b \o tail # <<>>
+    /\ dev = Cfg([inside_in |-> a \o tail], NoFn, {B("inside_in", "inside", "in")}, {}, {"inside"})
+    /\ tgt = Cfg([inside_in |-> b \o tail], NoFn, {B("inside_in", "inside", "in")}, {}, {})
+
+Init == CASE Fam = "S1" -> S1 [] Fam = "F2S" -> F2S [] Fam = "M2L" -> M2L [] Fam = "F1L" -> F1L [] Fam = "M1" -> M1 [] Fam = "F9" -> F9 [] Fam = "F1" -> F1 [] Fam = "F2" -> F2 [] Fam = "F3" -> F3 [] Fam = "F4" -> F4 [] Fam = "F7" -> F7
 Next == UNCHANGED <<dev, tgt>>
 
 \* non-vacuity of C16: the input offers several equally good matches
